@@ -171,8 +171,8 @@ def check_slice(lib, res):
         return
     o = Origins(b, lib)
     loops = cfg_cycles(b)
-    res.add("slice:two-loops", len(loops) == 2, f"variable::slice has two stepping loops (found {len(loops)})", b.span)
-    if len(loops) != 2:
+    res.add("slice:two-loops", len(loops) in (1, 2), f"variable::slice has one stepping loop per direction, or one loop serving both (found {len(loops)})", b.span)
+    if len(loops) not in (1, 2):
         return
 
     def model(t, args):
@@ -255,61 +255,76 @@ def check_slice(lib, res):
         w3 = W2(b, call_model=model)
         w3.init_env = lambda env0=env0: dict(env0)
         lp = w3.run(start=h, stop_at_loops=False)
-        back = [p for p in lp if p.leaf == ("revisit", h)]
-        out = [p for p in lp if p.leaf[0] != "revisit"]
-        if len(back) != 1:
-            res.add(f"slice:loop@bb{h}:single-body", False, f"loop at bb{h} has {len(back)} distinct body paths (expected one)", b.span)
+        back_all = [p for p in lp if p.leaf == ("revisit", h)]
+        out_all = [p for p in lp if p.leaf[0] != "revisit"]
+
+        def direction(p):
+            """A leading test of the step's sign on a body path (one loop serving both directions): 'pos' / 'neg', and the rest."""
+            if p.conds and isinstance(p.conds[0][0], Cmp):
+                c, truth = p.conds[0]
+                if c.a == Aff.var(step) and c.b == Aff.k(0) and c.op in ("Gt", "Le"):
+                    return ("pos" if (c.op == "Gt") == truth else "neg"), p.conds[1:]
+                if c.a == Aff.k(0) and c.b == Aff.var(step) and c.op in ("Lt", "Ge"):
+                    return ("pos" if (c.op == "Lt") == truth else "neg"), p.conds[1:]
+            return None, p.conds
+
+        dirs = sorted({direction(p)[0] or "any" for p in back_all})
+        if not back_all or len(back_all) != len(dirs) or (len(dirs) == 2 and dirs != ["neg", "pos"]) or len(dirs) > 2:
+            res.add(f"slice:loop@bb{h}:single-body", False, f"loop at bb{h} has {len(back_all)} body paths for directions {dirs} (expected one per direction)", b.span)
             return
-        body = back[0]
-        guard = body.conds[0] if body.conds else None
-        if not (guard and isinstance(guard[0], Cmp)):
-            res.add(f"slice:loop@bb{h}:guard", False, "the loop does not start with a comparison guard", b.span)
-            return
-        g, truth = guard
-        gop = g.op if truth else {"Lt": "Ge", "Gt": "Le", "Le": "Gt", "Ge": "Lt", "Eq": "Ne", "Ne": "Eq"}[g.op]
-        ivar, bvar = g.a, g.b
-        if gop in ("Gt",) and False:
-            pass
-        single = lambda a: len(a.terms) == 1 and a.const == 0 and list(a.terms.values()) == [1]
-        if not (single(ivar) and single(bvar)):
-            res.add(f"slice:loop@bb{h}:guard", False, f"loop guard {g!r} is not a comparison of two variables", b.span)
-            return
-        iv, bv = next(iter(ivar.terms)), next(iter(bvar.terms))
-        il, bl_ = int(iv[1:]), int(bv[1:])
-        # update of i: the Some payload of checked_add(i, step); None leaves the loop
-        new_i = body.env.get(il)
-        upd_ok = isinstance(new_i, Aff) and new_i == Aff.var(iv) + Aff.var(step)
-        checked = any(isinstance(a, tuple) and a[0] == "optval-some" and t for a, t in body.conds)
-        ovf = [ob for ob in body.obligations if ob[0].startswith("Overflow")]
-        res.add(f"slice:loop@bb{h}:step", upd_ok, f"loop at bb{h}: i <- i + step is the only update of i (found {new_i!r})", b.span)
-        res.add(f"slice:loop@bb{h}:step-cannot-overflow", upd_ok and checked and not ovf,
-                f"loop at bb{h}: the step is added with checked_add and an unrepresentable next index leaves the loop"
-                + (f" — unchecked arithmetic on the stepping path: {[(k, [repr(x) for x in ops]) for k, ops, _ in ovf]}" if ovf else ""), b.span)
-        none_exits = [p for p in out if any(isinstance(a, tuple) and a[0] == "optval-some" and not t for a, t in p.conds)]
-        res.add(f"slice:loop@bb{h}:none-exits", (not checked) or (len(none_exits) >= 1 and all(set(p.blocks[1:]).isdisjoint({h}) for p in none_exits)),
-                f"loop at bb{h}: checked_add == None exits the loop", b.span)
-        # b and step are loop invariant
-        inv = body.env.get(bl_) == Aff.var(bv) and body.env.get(4) == Aff.var(step)
-        res.add(f"slice:loop@bb{h}:invariants", inv, f"loop at bb{h}: the bound and the step are not modified in the loop", b.span)
-        # bounds check on array[i as usize] and what is pushed
-        bc = [ob for ob in body.obligations if ob[0] == "BoundsCheck"]
-        bc_ok = len(bc) == 1 and bc[0][1][0] == Aff.var(f"len({arr})") and bc[0][1][1] == ("idx", Aff.var(iv))
-        res.add(f"slice:loop@bb{h}:element", bc_ok, f"loop at bb{h}: exactly one element access, array[i as usize]", b.span)
-        pushes = [(bb, t) for bb, t in b.calls() if bb in cs and t["callee"].endswith("::push")]
-        push_ok = len(pushes) == 1
-        if push_ok:
-            pt = o.of_operand(pushes[0][1]["args"][1])
-            push_ok = all(x[0] == "elem" and x[1] == ("param", 1) for x in pt)
-            dest = o.of_operand(pushes[0][1]["args"][0])
-            push_ok = push_ok and all(x[0] == "call" and x[1] == "std::vec::Vec::<T>::new" for x in dest)
-        res.add(f"slice:loop@bb{h}:push", push_ok, f"loop at bb{h}: pushes array[i] onto the result exactly once per iteration", b.span)
-        # exit on guard false
-        gexits = [p for p in out if p.conds and isinstance(p.conds[0][0], Cmp) and p.conds[0][0].key() == g.key() and p.conds[0][1] != truth]
-        res.add(f"slice:loop@bb{h}:guard-exit", len(gexits) == 1, f"loop at bb{h}: leaves the loop when the guard fails", b.span)
-        loopinfo[h] = {"op": gop, "i": il, "b": bl_, "blocks": cs}
+        for body in back_all:
+            dirn, conds = direction(body)
+            tag = f"bb{h}" + (f"/{dirn}" if dirn else "")
+            out = [p for p in out_all if direction(p)[0] in (None, dirn)]
+            guard = conds[0] if conds else None
+            if not (guard and isinstance(guard[0], Cmp)):
+                res.add(f"slice:loop@{tag}:guard", False, "the loop does not start with a comparison guard", b.span)
+                return
+            g, truth = guard
+            gop = g.op if truth else {"Lt": "Ge", "Gt": "Le", "Le": "Gt", "Ge": "Lt", "Eq": "Ne", "Ne": "Eq"}[g.op]
+            ivar, bvar = g.a, g.b
+            single = lambda a: len(a.terms) == 1 and a.const == 0 and list(a.terms.values()) == [1]
+            if not (single(ivar) and single(bvar)):
+                res.add(f"slice:loop@{tag}:guard", False, f"loop guard {g!r} is not a comparison of two variables", b.span)
+                return
+            iv, bv = next(iter(ivar.terms)), next(iter(bvar.terms))
+            il, bl_ = int(iv[1:]), int(bv[1:])
+            # update of i: the Some payload of checked_add(i, step); None leaves the loop
+            new_i = body.env.get(il)
+            upd_ok = isinstance(new_i, Aff) and new_i == Aff.var(iv) + Aff.var(step)
+            checked = any(isinstance(a, tuple) and a[0] == "optval-some" and t for a, t in body.conds)
+            ovf = [ob for ob in body.obligations if ob[0].startswith("Overflow")]
+            res.add(f"slice:loop@{tag}:step", upd_ok, f"loop at {tag}: i <- i + step is the only update of i (found {new_i!r})", b.span)
+            res.add(f"slice:loop@{tag}:step-cannot-overflow", upd_ok and checked and not ovf,
+                    f"loop at {tag}: the step is added with checked_add and an unrepresentable next index leaves the loop"
+                    + (f" — unchecked arithmetic on the stepping path: {[(k, [repr(x) for x in ops]) for k, ops, _ in ovf]}" if ovf else ""), b.span)
+            none_exits = [p for p in out if any(isinstance(a, tuple) and a[0] == "optval-some" and not t for a, t in p.conds)]
+            res.add(f"slice:loop@{tag}:none-exits", (not checked) or (len(none_exits) >= 1 and all(set(p.blocks[1:]).isdisjoint({h}) for p in none_exits)),
+                    f"loop at {tag}: checked_add == None exits the loop", b.span)
+            # b and step are loop invariant
+            inv = body.env.get(bl_) == Aff.var(bv) and body.env.get(4) == Aff.var(step)
+            res.add(f"slice:loop@{tag}:invariants", inv, f"loop at {tag}: the bound and the step are not modified in the loop", b.span)
+            # bounds check on array[i as usize] and what is pushed
+            bc = [ob for ob in body.obligations if ob[0] == "BoundsCheck"]
+            bc_ok = len(bc) == 1 and bc[0][1][0] == Aff.var(f"len({arr})") and bc[0][1][1] == ("idx", Aff.var(iv))
+            res.add(f"slice:loop@{tag}:element", bc_ok, f"loop at {tag}: exactly one element access, array[i as usize]", b.span)
+            pushes = [(bb, t) for bb, t in b.calls() if bb in cs and t["callee"].endswith("::push")]
+            push_ok = len(pushes) == 1
+            if push_ok:
+                pt = o.of_operand(pushes[0][1]["args"][1])
+                push_ok = all(x[0] == "elem" and x[1] == ("param", 1) for x in pt)
+                dest = o.of_operand(pushes[0][1]["args"][0])
+                push_ok = push_ok and all(x[0] == "call" and x[1] == "std::vec::Vec::<T>::new" for x in dest)
+            res.add(f"slice:loop@{tag}:push", push_ok, f"loop at {tag}: pushes array[i] onto the result exactly once per iteration", b.span)
+            # exit on guard false
+            gexits = [p for p in out if direction(p)[1] and isinstance(direction(p)[1][0][0], Cmp) and direction(p)[1][0][0].key() == g.key() and direction(p)[1][0][1] != truth]
+            res.add(f"slice:loop@{tag}:guard-exit", len(gexits) == 1, f"loop at {tag}: leaves the loop when the guard fails", b.span)
+            loopinfo.setdefault(h, []).append({"op": gop, "i": il, "b": bl_, "blocks": cs, "dir": dirn})
 
     # ---- prefix tree equivalence --------------------------------------------------------------
-    kinds = sorted(v["op"] for v in loopinfo.values())
+    kinds = sorted(e["op"] for v in loopinfo.values() for e in v)
+    dir_ok = all(e["dir"] in (None, "pos" if e["op"] == "Lt" else "neg") for v in loopinfo.values() for e in v)
+    res.add("slice:loop-direction", dir_ok, "a loop shared by both directions compares i < b under step > 0 and i > b otherwise", b.span)
     res.add("slice:loop-kinds", kinds == ["Gt", "Lt"], f"one loop runs while i < b, the other while i > b (found {kinds})", b.span)
     if kinds != ["Gt", "Lt"]:
         return
@@ -335,10 +350,14 @@ def check_slice(lib, res):
                         amb.append((L, st, sp, s, len(hit)))
                         continue
                     p = hit[0]
-                    li = loopinfo.get(p.leaf[1])
-                    if li is None:
+                    lis = loopinfo.get(p.leaf[1])
+                    if lis is None:
                         # leaf block is inside the loop but not its head: find loop containing it
-                        li = next((v for v in loopinfo.values() if p.leaf[1] in v["blocks"]), None)
+                        lis = next((v for v in loopinfo.values() if p.leaf[1] in v[0]["blocks"]), None)
+                    li = next((e for e in (lis or []) if e["dir"] in (None, "pos" if s > 0 else "neg")), None)
+                    if li is None:
+                        mismatch.append((L, st, sp, s, "no loop for this direction"))
+                        continue
                     try:
                         a = p.env[li["i"]].eval(env)
                         bb_ = p.env[li["b"]].eval(env)
